@@ -459,7 +459,14 @@ func (dr *dirRepo) blobCreate(locked bool, opts ...BlobOpt) (BlobCreator, string
 
 // BlobDelete deletes an entry from the CAS.
 func (dr *dirRepo) BlobDelete(d digest.Digest) error {
-	return dr.blobDelete(d, false)
+	err := dr.blobDelete(d, false)
+	if err == nil {
+		// a change of the repo, the next GC pass removes index entries left without their blob
+		dr.mu.Lock()
+		dr.timeMod = time.Now()
+		dr.mu.Unlock()
+	}
+	return err
 }
 
 func (dr *dirRepo) blobDelete(d digest.Digest, locked bool) error {
